@@ -11,6 +11,7 @@ import (
 
 	"rscheck/cfgq"
 	"rscheck/core"
+	"rscheck/lin"
 	"rscheck/pat"
 	"rscheck/rules/c10/flow"
 )
@@ -132,7 +133,7 @@ func (r *rs) iocopy() {
 }
 
 // remaining checks one RDB copy loop: Iocopy(..., max) with max the remaining count.
-func (r *rs) boundedCaller(key string, fn *core.Fn, g *cfgq.Graph, root ast.Node, iocopy *core.Fn, wantReader types.Object) {
+func (r *rs) boundedCaller(key string, fn *core.Fn, g *cfgq.Graph, root ast.Node, iocopy *core.Fn, wantReader, sizeParam types.Object) {
 	c := r.c
 	info := fn.Pkg.TypesInfo
 	calls := callsTo(info, root, iocopy.Obj, false)
@@ -193,6 +194,8 @@ func (r *rs) boundedCaller(key string, fn *core.Fn, g *cfgq.Graph, root ast.Node
 			return
 		}
 		c.Okf("R3.bounded", key+"/max-is-remaining", call.Pos(), "max is the remaining count %s and the result is subtracted from it", x.Name())
+		// the countdown starts at the announced size
+		r.startsAt(key, root, x, sizeParam, info, call.Pos())
 		isX := flow.IsObj(info, x)
 		what = x.Name() + " != 0"
 		tracked = []types.Object{x}
@@ -223,6 +226,24 @@ func (r *rs) boundedCaller(key string, fn *core.Fn, g *cfgq.Graph, root ast.Node
 			return
 		}
 		c.Okf("R3.bounded", key+"/max-is-remaining", call.Pos(), "max is total - done and the result is added to done")
+		if to := flow.Obj(info, b["_total"]); to != nil {
+			r.startsAt(key, root, to, sizeParam, info, call.Pos())
+		} else if sizeParam != nil {
+			sid := ast.NewIdent(sizeParam.Name())
+			info.Uses[sid] = sizeParam
+			want, got := lin.Of(info, sid), lin.Of(info, b["_total"].(ast.Expr))
+			k := key + "/counts-announced-size"
+			switch {
+			case got.Equal(want):
+				c.Okf("R3.bounded", k, call.Pos(), "the total is the announced size")
+			case (lin.Form{Coef: got.Coef}).Equal(lin.Form{Coef: want.Coef}):
+				c.Failf("R3.bounded", k, call.Pos(), "the copy counts %s%+d bytes, not the announced size: the dump is cut short or runs into the command stream by that many bytes", sizeParam.Name(), got.Const-want.Const)
+			default:
+				c.Undecidedf("R3.bounded", k, call.Pos(), "the total %s is not the size parameter", c.Src(b["_total"]))
+			}
+		} else {
+			c.Undecidedf("R3.bounded", key+"/counts-announced-size", call.Pos(), "size parameter not resolved")
+		}
 		isTotal := func(e ast.Expr) bool { return pat.Same(info, e, b["_total"]) }
 		isDone := func(e ast.Expr) bool {
 			return pat.Expr("_done.Get()").Match(info, e, pat.Binds{"_done": b["_done"]}) != nil
@@ -291,6 +312,61 @@ func (r *rs) boundedCaller(key string, fn *core.Fn, g *cfgq.Graph, root ast.Node
 		c.Undecidedf("R3.bounded", key+"/until-exhausted", loop.Pos(), "the loop tests its counters in a form that is not understood; required: %s", detail)
 	default:
 		c.Check("R3.bounded", key+"/until-exhausted", loop.Pos(), true, detail)
+	}
+}
+
+// startsAt: the counter x (countdown or total) is the announced size: the size parameter itself, or a
+// local initialised from it (as a linear form, so int(size), size+0 ... are the same).
+func (r *rs) startsAt(key string, root ast.Node, x, sizeParam types.Object, info *types.Info, pos token.Pos) {
+	c := r.c
+	k := key + "/counts-announced-size"
+	if sizeParam == nil {
+		c.Undecidedf("R3.bounded", k, pos, "size parameter not resolved")
+		return
+	}
+	if x == sizeParam {
+		c.Okf("R3.bounded", k, pos, "the copy counts the announced size %s itself", x.Name())
+		return
+	}
+	sid := ast.NewIdent(sizeParam.Name())
+	info.Uses[sid] = sizeParam
+	want := lin.Of(info, sid)
+	var inits []ast.Expr
+	core.InspectAll(root, func(m ast.Node) bool {
+		switch s := m.(type) {
+		case *ast.AssignStmt:
+			if len(s.Lhs) == len(s.Rhs) && (s.Tok == token.DEFINE || s.Tok == token.ASSIGN) {
+				for i, l := range s.Lhs {
+					if flow.IsObj(info, x)(l) {
+						// x = x - moved is the countdown step, not an initialisation
+						if be, ok := ast.Unparen(s.Rhs[i]).(*ast.BinaryExpr); ok && be.Op == token.SUB && flow.IsObj(info, x)(be.X) {
+							continue
+						}
+						inits = append(inits, s.Rhs[i])
+					}
+				}
+			}
+		case *ast.ValueSpec:
+			for i, n := range s.Names {
+				if info.Defs[n] == x && i < len(s.Values) {
+					inits = append(inits, s.Values[i])
+				}
+			}
+		}
+		return true
+	})
+	if len(inits) != 1 {
+		c.Undecidedf("R3.bounded", k, pos, "the counter %s has %d initialisations", x.Name(), len(inits))
+		return
+	}
+	got := lin.Of(info, inits[0])
+	switch {
+	case got.Equal(want):
+		c.Okf("R3.bounded", k, pos, "%s starts at the announced size %s", x.Name(), sizeParam.Name())
+	case (lin.Form{Coef: got.Coef}).Equal(lin.Form{Coef: want.Coef}):
+		c.Failf("R3.bounded", k, pos, "the copy counts %s = %s%+d bytes, not the announced size: it hands over to the command phase %d byte(s) off, so RDB bytes reach the command parser or command bytes reach the RDB consumer", x.Name(), sizeParam.Name(), got.Const-want.Const, got.Const-want.Const)
+	default:
+		c.Undecidedf("R3.bounded", k, pos, "the counter %s starts at %s, which is not the size parameter", x.Name(), c.Src(inits[0]))
 	}
 }
 
@@ -422,6 +498,7 @@ func (r *rs) dumpSide() {
 	}
 	// the copy loop lives in a goroutine literal of dumpRDBFile
 	_, rparam := param(rdbFile, 0)
+	_, sparam := param(rdbFile, 2)
 	wid, _ := param(rdbFile, 1)
 	var lit *ast.FuncLit
 	for _, fl := range core.FuncLits(rdbFile.Decl.Body) {
@@ -434,7 +511,7 @@ func (r *rs) dumpSide() {
 		return
 	}
 	g := cfgq.OfLit(c.Program, info, lit)
-	r.boundedCaller("dumpRDBFile", rdbFile, g, lit, ioc, rparam)
+	r.boundedCaller("dumpRDBFile", rdbFile, g, lit, ioc, rparam, sparam)
 	call := callsTo(info, lit, ioc.Obj, false)[0]
 	if !pat.Same(info, call.Args[1], wid) {
 		c.Undecidedf("R3.bounded", "dumpRDBFile/flush", call.Pos(), "the copy does not write to the writer parameter")
